@@ -15,13 +15,13 @@ Pool2 == IF QUICK THEN {<<R(a), R(b)>> : a \in {-1, 0, 2}, b \in {-1, 0, 2}} ELS
 Pool3 == {<<R(1), R(0), R(0)>>, <<R(0), R(1), R(0)>>, <<R(0), R(0), R(1)>>, <<R(2), R(-1), R(3)>>, <<<<1, 2>>, R(4), R(-2)>>,
           <<R(-3), <<2, 3>>, R(1)>>} \cup (IF QUICK THEN {} ELSE {<<R(0), R(0), R(0)>>, <<R(5), R(-2), <<-1, 4>>>>, <<R(1), R(1), R(1)>>})
 Pool4 == {<<R(1), R(0), R(0), R(0)>>, <<R(2), R(-1), R(3), R(1)>>, <<<<1, 2>>, R(4), R(-2), R(0)>>,
-          <<R(-3), <<2, 3>>, R(1), R(-1)>>} \cup (IF QUICK THEN {} ELSE {<<R(0), R(1), R(0), R(0)>>, <<R(0), R(0), R(1), R(0)>>, <<R(0), R(0), R(0), R(1)>>, <<R(1), R(-2), R(2), <<3, 2>>>>})
+          <<R(-3), <<2, 3>>, R(1), R(-1)>>} \cup (IF QUICK THEN {} ELSE {<<R(0), R(0), R(1), R(0)>>, <<R(1), R(-2), R(2), <<3, 2>>>>})   \* 6^4 matrices: the thorough run stays near ten minutes
 Pool == CASE N = 2 -> Pool2 [] N = 3 -> Pool3 [] N = 4 -> Pool4
 \* dense second and third operands
 Dense(n, s) == [c \in 1..n |-> [r \in 1..n |-> Norm(((c * 7 + r * 3 + s * 5) % 11) - 5, 1 + ((c + 2 * r + s) % 3))]]
 BList == {Dense(N, 1), Dense(N, 2), Id(N)} \cup (IF QUICK THEN {} ELSE {Dense(N, 3), MZero(N), Transpose(Dense(N, 4))})
 CList == {Dense(N, 5)} \cup (IF QUICK THEN {} ELSE {Dense(N, 6)})
-Scalars == {R(2), <<-1, 2>>} \cup (IF QUICK THEN {} ELSE {R(0), R(-3)})
+Scalars == {R(2), <<-1, 2>>} \cup (IF QUICK THEN {} ELSE IF N = 4 THEN {R(0)} ELSE {R(0), R(-3)})
 
 Init == A = <<>> /\ B = <<>> /\ C = <<>> /\ v = <<>> /\ k = Zero /\ phase = "A"
 Next == \/ phase = "A" /\ \E col \in Pool : A' = Append(A, col) /\ phase' = (IF Len(A) + 1 = N THEN "BC" ELSE "A") /\ UNCHANGED <<B, C, v, k>>
